@@ -105,7 +105,9 @@ def main():
             per_config[cname] = {'functions_analysed': len(f.bodies), 'poly_bodies': len(f.poly),
                                  'call_edges': sum(len(b.calls) for b in f.bodies.values()),
                                  'loops_classified': sum(len(b.loops()) for b in f.bodies.values() if not b.generic_dup()),
-                                 'rule_instances': len(rs)}
+                                 'rule_instances': len(rs),
+                                 'helpers_inlined_into_callers': f.inline_report.get('inlined', []),
+                                 'helper_bodies_dropped_after_inlining': f.inline_report.get('dropped', [])}
             for r in rs:
                 all_results.append((cname, r))
         # controls: positive fixtures
